@@ -5,8 +5,8 @@
 From ZV Require Export Zerv Render.
 Open Scope N_scope.
 
-(* integer-valued contribution of a component (value after the integer sanitiser, in u32) *)
-Definition int_contrib (vs : vars) (c : component) : option N := u32_value c vs.
+(* integer-valued contribution of a component (value after the integer sanitiser, in u64) *)
+Definition int_contrib (vs : vars) (c : component) : option N := u64_value c vs.
 
 (* the core components, each tagged "is one of the first three integer-valued ones" *)
 Fixpoint tag_core (vs : vars) (cs : list component) (seen : nat) : list (component * option N) :=
